@@ -345,6 +345,211 @@ def mk_models_init(n, nlen):
     return ModelsInitOrder(n, nlen)
 
 
+# ------------------------------------------------------------------ K5: set iteration order as a solver-chosen permutation
+def _with_order(perm_of, fn, *a):
+    """run fn with every iteration over an instrumented set reordered by perm_of(list) (None: insertion order)"""
+    saved = hook.ENV.get("set_order")
+    hook.ENV["set_order"] = perm_of
+    try:
+        return fn(*a)
+    finally:
+        if saved is None:
+            hook.ENV.pop("set_order", None)
+        else:
+            hook.ENV["set_order"] = saved
+
+
+def k_path_params(P, v1, v2, v3):
+    """signature order of the arguments the processor adds for path variables nobody declared"""
+    pp = import_module(P.__name__ + ".visit.endpoint.processors.parameter_processor")
+    rc = import_module(P.__name__ + ".context.render_context")
+    path = "/x/{" + v1 + "}/y/{" + v2 + "}" + ("/z/{" + v3 + "}" if v3 is not None else "")
+    op = P.IROperation(operation_id="op", method=P.HTTPMethod.GET, path=path, summary=None, description=None, parameters=[], request_body=None, responses=[], tags=[])
+    ctx = rc.RenderContext(core_package_name="core", package_root_for_generated_code="/tmp/x", overall_project_root="/tmp")
+    ctx.set_current_file("/tmp/x/endpoints/e.py")
+    ordered, _, _ = pp.EndpointParameterProcessor({}).process_parameters(op, ctx)
+    return [p["name"] for p in ordered]
+
+
+def k_op_tags(P, t1, t2, t3):
+    """tags of a parsed operation, in the order later used for grouping and for the mock client"""
+    ops_mod = import_module(P.__name__ + ".core.loader.operations")
+    ctx_mod = import_module(P.__name__ + ".core.parsing.context")
+    D = hook.SDict if P.__name__.startswith("sxi_") else dict
+    tags = [t1, t2] + ([t3] if t3 is not None else [])
+    paths = D()
+    paths["/x"] = D(get=D(operationId="getx", tags=tags, responses={"200": {"description": "ok"}}))
+    ops = ops_mod.parse_operations(paths, D(), D(), D(), ctx_mod.ParsingContext())
+    return [list(o.tags) for o in ops]
+
+
+def k_endpoint_text(P, v1, v2, v3):
+    """text of an endpoint module whose operation has two undeclared path variables and two tags"""
+    from props import c13sig
+
+    ee = import_module(P.__name__ + ".emitters.endpoints_emitter")
+    rc = import_module(P.__name__ + ".context.render_context")
+    from props import c07
+
+    op = P.IROperation(operation_id="do_it", method=P.HTTPMethod.GET, path="/x/{" + v1 + "}/y/{" + v2 + "}", summary="s", description=None,
+                       parameters=[P.IRParameter(name="flt", param_in="query", required=False, schema=P.IRSchema(type="string"))], request_body=None,
+                       responses=[P.IRResponse(status_code="200", description="ok", content={"application/json": P.IRSchema(type="string")}),
+                                  P.IRResponse(status_code="404", description="no", content={}), P.IRResponse(status_code="500", description="err", content={})],
+                       tags=["things"])
+    c = rc.RenderContext(core_package_name="core", package_root_for_generated_code="/tmp/x/pkg", overall_project_root="/tmp/x", parsed_schemas={})
+    c.file_manager = c07._FM()
+    em = ee.EndpointsEmitter(c)
+    c13sig._patch(P)
+    saved = ee.Path
+    ee.Path = lambda s: c07._FakePath(s)
+    try:
+        em.emit([op], "/tmp/x/pkg")
+    finally:
+        ee.Path = saved
+    return [t for p_, t in c.file_manager.writes if str(p_).endswith("things.py")]
+
+
+SET_KERNELS = {"path_params": k_path_params, "op_tags": k_op_tags, "endpoint_text": k_endpoint_text}
+VARS = ranges_of_pts([ord(c) for c in "abAB_1"])
+
+
+class SetOrder(Obligation):
+    """The result must not depend on the iteration order of any set the code builds (that order follows PYTHONHASHSEED)."""
+
+    alphabet = VARS
+    timeout_ms = 30000
+
+    def __init__(self, kind, n, mode):
+        self.kind, self.n, self.mode = kind, n, mode
+        self.name = "set_order/%s/n=%d/%s" % (kind, n, mode)
+        self.functions = {"path_params": ["pyopenapi_gen.visit.endpoint.processors.parameter_processor:EndpointParameterProcessor._ensure_path_variables_as_params",
+                                          "pyopenapi_gen.helpers.url_utils:extract_url_variables"],
+                          "op_tags": ["pyopenapi_gen.core.loader.operations.parser:parse_operations"],
+                          "endpoint_text": ["pyopenapi_gen.emitters.endpoints_emitter:EndpointsEmitter.emit", "pyopenapi_gen.visit.endpoint.endpoint_visitor:EndpointVisitor.emit_endpoint_client_class",
+                                            "pyopenapi_gen.visit.endpoint.processors.parameter_processor:EndpointParameterProcessor.process_parameters"]}[kind]
+        self.bounds = {"names": "%d symbolic one-character names over 'abAB_1', pairwise distinct" % n,
+                       "set iteration order": "all iterations reversed (one solver-chosen bit)" if mode == "reverse" else "each of the first 4 multi-element set iterations reversed or not (solver-chosen bits)"}
+
+    def make_inputs(self, e):
+        inp = {"v%d" % i: mk_sym_str(1, "v%d" % i, VARS) for i in range(self.n)}
+        for i in range(self.n):
+            for j in range(i + 1, self.n):
+                e.assume(inp["v%d" % i].lower() != inp["v%d" % j].lower())
+        inp["bits"] = [bool(e.choose(2, "rev%d" % k)) for k in range(1 if self.mode == "reverse" else 4)]
+        return inp
+
+    def run_sym(self, inp):
+        P = _I()
+        args = [inp["v%d" % i] for i in range(self.n)] + [None] * (3 - self.n)
+        fn = SET_KERNELS[self.kind]
+        base = call_catching(fn, P, *args)
+        bits = list(inp["bits"])
+        state = {"k": 0}
+
+        def order(ks):
+            if self.mode == "reverse":
+                return list(reversed(ks)) if bits[0] else ks
+            k = state["k"]
+            state["k"] += 1
+            return list(reversed(ks)) if (k < len(bits) and bits[k]) else ks
+
+        return (base, _with_order(order, call_catching, fn, P, *args))
+
+    def run_real(self, inp):
+        """the uninstrumented code under several hash seeds (one persistent interpreter per seed)"""
+        args = [inp["v%d" % i] for i in range(self.n)] + [None] * (3 - self.n)
+        outs = [seed_call(seed, self.kind, args) for seed in SEEDS]
+        return tuple(outs)
+
+    def _canon(self, x):
+        """order-insensitive form, for comparing the model's insertion-order run with one real interpreter"""
+        if isinstance(x, Raised):
+            return x
+
+        def n(v):
+            return [n(y) for y in v] if isinstance(v, list) else _simp(v)
+
+        v = n(x)
+        if self.kind == "endpoint_text":
+            return sorted("\n".join(v).split("\n"))
+        flat = v if not (v and isinstance(v[0], list)) else [y for z in v for y in z]
+        return sorted(str(y) for y in flat)
+
+    def normalise(self, r):
+        return self._canon(r[0])
+
+    def prop(self, inp, r):
+        def eq(x, y):
+            if isinstance(x, Raised) or isinstance(y, Raised):
+                return isinstance(x, Raised) and isinstance(y, Raised)
+            if isinstance(x, list) and isinstance(y, list):
+                return len(x) == len(y) and all(eq(p, q) for p, q in zip(x, y))
+            if isinstance(x, list) or isinstance(y, list):
+                return False
+            return len(x) == len(y) and bool(x == y)
+
+        return all(eq(r[0], o) for o in r[1:])
+
+    def describe_violation(self, inp, r):
+        def n(x):
+            return [n(y) for y in x] if isinstance(x, list) else _simp(x)
+
+        return "names %r: the result depends on set iteration order (hash seed): %s" % (
+            [_simp(inp["v%d" % i]) for i in range(self.n)], " vs ".join(sorted(set(str(n(o))[:200] for o in r))))
+
+
+SEEDS = [0, 1, 2, 3, 4, 5]
+_SERVERS = {}
+
+
+def seed_call(seed, kind, args):
+    """run SET_KERNELS[kind] on the uninstrumented code in a persistent interpreter started with PYTHONHASHSEED=seed"""
+    import atexit
+    import subprocess
+    import sys
+
+    srv = _SERVERS.get(seed)
+    if srv is None or srv.poll() is not None:
+        env = dict(os.environ, PYTHONHASHSEED=str(seed))
+        srv = subprocess.Popen([sys.executable, "-c", "import sys; sys.setrecursionlimit(20000); import logging; logging.disable(logging.CRITICAL); from props import c09; c09.seed_server()"],
+                               stdin=subprocess.PIPE, stdout=subprocess.PIPE, stderr=subprocess.DEVNULL, text=True, env=env)
+        _SERVERS[seed] = srv
+        atexit.register(lambda s=srv: s.kill())
+    srv.stdin.write(json.dumps({"kind": kind, "args": args}) + "\n")
+    srv.stdin.flush()
+    line = srv.stdout.readline()
+    if not line:
+        raise RuntimeError("seed server %d died" % seed)
+    out = json.loads(line)
+    if "raised" in out:
+        class _E(Exception):
+            pass
+
+        ex = _E(out["raised"])
+        r = Raised(ex)
+        r.kind = out["raised"]
+        return r
+    return out["result"]
+
+
+def seed_server():
+    import sys
+
+    P = _R()
+    for line in sys.stdin:
+        req = json.loads(line)
+        try:
+            res = SET_KERNELS[req["kind"]](P, *req["args"])
+            sys.stdout.write(json.dumps({"result": res}) + "\n")
+        except Exception as ex:  # noqa
+            sys.stdout.write(json.dumps({"raised": type(ex).__name__}) + "\n")
+        sys.stdout.flush()
+
+
+def mk_set_order(kind, n, mode):
+    return SetOrder(kind, n, mode)
+
+
 # ------------------------------------------------------------------ driver
 def specs(tier):
     q = tier == "quick"
@@ -366,6 +571,16 @@ def specs(tier):
     from props import c09h
 
     out.extend(c09h.specs(tier, "c09"))
+    for kind in ("path_params", "op_tags"):
+        out.append((MOD, "mk_set_order", (kind, 2, "reverse")))
+        out.append((MOD, "mk_set_order", (kind, 3, "reverse" if q else "bits")))
+    out.append((MOD, "mk_set_order", ("endpoint_text", 2, "reverse" if q else "bits")))
+    # "when the existing output differs from what would be generated now, the non-force run fails": the generate()
+    # histories of props/c10.py (tampered trees, prefix-named sibling cores)
+    from props import c10
+
+    for olen, clen in ([(1, 0), (1, 2)] if q else [(1, 0), (1, 2), (2, 1), (3, 0)]):
+        out.append(("props.c10", "mk_history", (olen, clen)))
     return out
 
 
@@ -388,6 +603,10 @@ def run(tier, rep, only=None):
 def replay(path):
     v = json.load(open(path))["violation"]
     name = v["obligation"]
+    if name.startswith("history/"):
+        from props import c10
+
+        return c10.replay(path)
     if name.startswith("shared_core_history"):
         from props import c09h
 
